@@ -38,6 +38,40 @@ func c06() {
 			}
 		}
 	}
+	// two interacting jumps: every combination of four distances around the 8-bit limit and of the gap between the jumps
+	// (thorough: all of them; quick: a PRNG sample)
+	type twoJ struct {
+		g, a, b, c, d int
+		fill, tk      string
+	}
+	var twos []twoJ
+	D := []int{1, 2, 254, 255, 256, 257, 258, 511, 512, 513}
+	G := []int{1, 2, 3, 100, 253, 254, 255, 256, 257}
+	r0 := caseRand(run, -1)
+	for _, g := range G {
+		for _, a := range D {
+			for _, b := range D {
+				for _, c := range D {
+					for _, d := range D {
+						for _, fk := range []string{"loads", "jumps", "mixed"} {
+							for _, tk := range []string{"ret", "ld"} {
+								if run.Thorough() || r0.Intn(90) == 0 {
+									twos = append(twos, twoJ{g, a, b, c, d, fk, tk})
+								}
+							}
+						}
+					}
+				}
+			}
+		}
+	}
+	for _, tj := range twos {
+		if ops, ok := vlib.TwoJumpProgram(tj.g, tj.a, tj.b, tj.c, tj.d, tj.fill, tj.tk); ok {
+			cat = append(cat, ops)
+			catDesc = append(catDesc, fmt.Sprintf("two jumps: A@0 true=+%d false=+%d, B@%d true=+%d false=+%d, fill=%s targets=%s", tj.a, tj.b, tj.g, tj.c, tj.d, tj.fill, tj.tk))
+		}
+	}
+	run.Count("two_jump_interaction_programs", int64(len(twos)))
 	nRandom := run.N(40000, 1500000)
 	total := len(cat) + nRandom
 
@@ -139,5 +173,5 @@ func c06() {
 		run.Require("early_return_bridges_observed", 1)
 	}
 	run.Finish(run.Counter("label_programs"), int64(len(shapes)),
-		"label programs built only through NewProgram/NewLabel/SetLabel/JmpIf/JmpIfTrue/LdHi/LdLo/Ret/Assemble: catalogue (one jump at distances 1..1000 to ret/load/jump, 0..300 preceding ops, true/false/both far, shared far labels, jump-sparse and jump-dense fillers) + PRNG forward DAGs up to 3000 ops; oracle: simultaneous walk over all reachable (label pc, assembled pc) pairs; distinct = (ops, inserted instructions, ja bridges)")
+		"label programs built only through NewProgram/NewLabel/SetLabel/JmpIf/JmpIfTrue/LdHi/LdLo/Ret/Assemble: catalogue (one jump at distances 1..1000 to ret/load/jump, 0..300 preceding ops, true/false/both far, shared far labels, jump-sparse and jump-dense fillers; two interacting jumps with all combinations of four distances from {1,2,254..258,511..513} and gaps {1,2,3,100,253..257}) + PRNG forward DAGs up to 3000 ops; oracle: simultaneous walk over all reachable (label pc, assembled pc) pairs; distinct = (ops, inserted instructions, ja bridges)")
 }
